@@ -125,25 +125,41 @@ impl Run {
         Ok(())
     }
 
-    /// Lets `sizes.len()` events queue up behind the writer (the clock it reads is held while
-    /// they are sent) and then releases it: a backlog, as under a burst of logging. The
-    /// result on disk must be the same as for one-at-a-time delivery.
+    /// Lets `sizes.len() - 1` events queue up behind the writer and then releases it: a
+    /// backlog, as under a burst of logging. The writer is parked right after it has reported
+    /// the first event of the burst, the others are queued, then it is released - so the
+    /// whole backlog is in the channel before the writer looks at it again, whatever it does
+    /// with it. The result on disk must be the same as for one-at-a-time delivery.
     fn send_burst(&mut self, first_seq: u64, sizes: &[usize]) -> Result<(), Outcome> {
         sim_core::heartbeat();
         set_clock(self.now_ns);
-        hooks::hold_clock(true);
         let (id, sender, n) = self.writer.as_mut().expect("writer");
         let id = *id;
+        hooks::park_writers_at(Some(*n + 1));
         for (i, size) in sizes.iter().enumerate() {
             let ev = LogEvent::new(Level::Info, vec![tag("seq", first_seq + i as u64), tag("pad", "x".repeat(*size))]);
             if sender.send(ev).is_err() {
-                hooks::hold_clock(false);
+                hooks::park_writers_at(None);
                 return Err(Outcome::fail("C19.writer_keeps_running", format!("the writer thread is gone: sending event {} failed; history: {:?}", first_seq + i as u64, self.descr)));
             }
             *n += 1;
+            if i == 0 {
+                // the writer deals with the first event and then waits at the gate
+                match hooks::wait_writer(id, *n, Duration::from_secs(30)) {
+                    Some(info) if info.events_done >= *n => {}
+                    Some(info) if info.exited => {
+                        hooks::park_writers_at(None);
+                        return Err(Outcome::fail("C19.writer_keeps_running", format!("the writer thread ended while processing event {first_seq}; history: {:?}", self.descr)));
+                    }
+                    other => {
+                        hooks::park_writers_at(None);
+                        return Err(Outcome { harness_error: Some(format!("writer did not acknowledge event {first_seq}: {other:?}")), ..Default::default() });
+                    }
+                }
+            }
         }
         let want = *n;
-        hooks::hold_clock(false);
+        hooks::park_writers_at(None);
         let last = first_seq + sizes.len() as u64 - 1;
         let needle = format!("\"seq\":{last},");
         let mut acknowledged = false;
@@ -723,7 +739,7 @@ pub fn spec() -> PropertySpec {
     PropertySpec {
         id: "C19",
         level: "exploration",
-        rule: "The real LogFileWriter writer thread and real files in a per-run tmpfs directory, built with --cfg servlin_verif so that the thread reads a simulated clock and reports each finished event; the harness drives it in lock-step (set clock, send one event with a unique sequence number, wait for the thread). Histories of 30-430 events (quick) / 100-20000 (thorough), 50 B - 60 KiB each (in some runs also 66-146 KB: larger than a 64 KiB file and than the smallest keep budget, singly and back to back), over configurations max_write_bytes in {64 KiB, 128 KiB, 1 MiB} x max_keep_bytes in {1, 2, 3.5, 10} x that, keep-age off / 60 s .. 1 day, max_write_age 1 s .. 1 day; clock gaps of milliseconds, seconds, hours, days; 0-5 pre-existing files of earlier runs with set sizes and mtimes (in a quarter of these runs two or three of them share one mtime: all must be counted and deleted, in any order among themselves); unrelated look-alike files; backlogs (2-90 events of 0.2-3 KB queue up behind the writer while the harness holds its clock, then are released together: the files must come out as for one-at-a-time delivery); restarts at random points: graceful, kill (thread abandoned), kill with a torn tail (newest file cut inside its last line). After EVERY event: creation order by diffing listings, oldest-first deletion, per-file size and age bounds, total size of all prefix files <= keep-size + one event, keep-age, unrelated files untouched; at every rotation and every 64 events: all surviving lines are whole, strictly consecutive and end at the newest accepted event. File-set stage: PrefixFileSet {new, push, delete_oldest, delete_older_than, delete_oldest_while_over_max_len} sequences with synthetic clocks against a reference model of the directory. non-trivial = at least one rotation; distinct = hash of history description.",
+        rule: "The real LogFileWriter writer thread and real files in a per-run tmpfs directory, built with --cfg servlin_verif so that the thread reads a simulated clock and reports each finished event; the harness drives it in lock-step (set clock, send one event with a unique sequence number, wait for the thread). Histories of 30-430 events (quick) / 100-20000 (thorough), 50 B - 60 KiB each (in some runs also 66-146 KB: larger than a 64 KiB file and than the smallest keep budget, singly and back to back), over configurations max_write_bytes in {64 KiB, 128 KiB, 1 MiB} x max_keep_bytes in {1, 2, 3.5, 10} x that, keep-age off / 60 s .. 1 day, max_write_age 1 s .. 1 day; clock gaps of milliseconds, seconds, hours, days; 0-5 pre-existing files of earlier runs with set sizes and mtimes (in a quarter of these runs two or three of them share one mtime: all must be counted and deleted, in any order among themselves); unrelated look-alike files; backlogs (2-90 events of 0.2-3 KB queue up behind the writer while the harness holds the writer at the end of an event, then are released together: the files must come out as for one-at-a-time delivery); restarts at random points: graceful, kill (thread abandoned), kill with a torn tail (newest file cut inside its last line). After EVERY event: creation order by diffing listings, oldest-first deletion, per-file size and age bounds, total size of all prefix files <= keep-size + one event, keep-age, unrelated files untouched; at every rotation and every 64 events: all surviving lines are whole, strictly consecutive and end at the newest accepted event. File-set stage: PrefixFileSet {new, push, delete_oldest, delete_older_than, delete_oldest_while_over_max_len} sequences with synthetic clocks against a reference model of the directory. non-trivial = at least one rotation; distinct = hash of history description.",
         scenarios: vec![
             Scenario { name: "c19.history", property: "C19", func: history, runs_quick: 6_000, runs_thorough: 60_000, doc: "writer thread histories" },
             Scenario { name: "c19.file_set", property: "C19", func: file_set, runs_quick: 80_000, runs_thorough: 1_500_000, doc: "file-set API vs model" },
